@@ -595,6 +595,27 @@ fn sabotage(s: &Sab, rec: &mut veryl_pretty::verif::RenderRecord) {
                 }
             }
         }
+        Some("pad") => {
+            // widen one alignment gap (two or more blanks between two non-blank characters) by one
+            let t = rec.rendered.text.clone();
+            let b = t.as_bytes();
+            let mut cands = vec![];
+            for i in 1..b.len().saturating_sub(2) {
+                if b[i] == b' ' && b[i + 1] == b' ' && b[i - 1] != b' ' && b[i - 1] != b'\n' {
+                    cands.push(i);
+                }
+            }
+            for i in cands.into_iter().take(200) {
+                let mut cand = t.clone();
+                cand.insert(i, ' ');
+                let probe = Rendered { text: cand.clone(), anchors: vec![] };
+                let v = judge_doc(&rec.doc, &rec.opts, &Rendered { anchors: rec.rendered.anchors.clone(), ..probe }, "probe");
+                if v.bad.iter().any(|(s, _)| s.starts_with("pad:")) {
+                    rec.rendered.text = cand;
+                    break;
+                }
+            }
+        }
         Some("trailing_blank") => {
             if let Some(i) = rec.rendered.text.find('\n') {
                 rec.rendered.text.insert(i, ' ');
